@@ -18,6 +18,11 @@ def T(id, props, file, old, new, count=1, note="", more=()):
     TWINS.append(dict(id=id, props=props, edits=[(file, old, new, count)] + list(more), note=note))
 
 
+def S(id, props, patch, expect, note=""):
+    """A seeded change written by an independent author (kept under /verif/seeded/<name>/patch.diff)."""
+    MUTANTS.append(dict(id=id, props=props, edits=[], patch=patch, expect=expect, note=note))
+
+
 VM = "src/microjs/vm.py"
 CO = "src/microjs/compiler.py"
 CX = "src/microjs/context.py"
